@@ -813,6 +813,10 @@ impl<'layout, 'out> TableWriter<'layout, 'out> {
                 "Tried to write tpoff with no allocation. {}",
                 res.flags
             );
+            // The value is supplied by the addend of the dynamic relocation, but we still need to
+            // write the GOT entry, otherwise it would keep whatever bytes the output file
+            // previously contained if we're updating it in place.
+            *got_entry = 0;
             self.write_tpoff_relocation::<A>(got_address, 0, address.sub(self.tls.start) as i64)?;
         }
         Ok(())
